@@ -56,6 +56,12 @@ CHECKS = {
  "C10": (EX, "HashLaw in TLA+ (abstract value -> first observed hash, later observations must agree; eq = equality of abstract values; copy/assign/swap preserve values) validated by TLC over recorded observations on instances in different allocation classes and containers reached through different histories (ValTrace Mode hash)",
          "values of Int, Float (+0/-0), String, Type, plain structs are instantiated on the stack, on the heap and inside containers; Tables are built in different insertion orders, with extra insert/remove pairs and reserves, Trees, Arrays, Lists and Tuples with equal elements; hash of every instance, eq of every pair, copy, assign (also across container kinds) and swap are logged with raw operands and TLC checks that each abstract value has one hash, that eq is abstract equality, and that copy/assign/swap deliver the source value.",
          "sampled value domain; eq between a Tree and a Table is not generated (their iteration orders differ by design)", "5/C10"),
+ "C14": (EX, "TLA+ FormatScan (the scanner of print_to_with against the grammar, all class sequences up to 4 segments, read index in bounds) checked by TLC; generated format strings x boundary values x start positions x sinks executed; composition validated by TLC (FmtTrace Mode print) with libc snprintf as the per-conversion rendering oracle",
+         "what a single conversion prints is the C library's business: it enters the specification as an uninterpreted function whose values the log supplies (snprintf with exactly the same specification and value; show_to for %$). The specification decides everything else and TLC checks it on every recorded call: segments consumed left to right with one argument each, output = destination prefix + renderings, returned position = start + characters written, identical bytes on String and File sinks, FormatError exactly when the arguments run out with only the earlier segments written. Every order of up to three segment classes and thousands of random format strings (flags, widths, precisions, length modifiers, all listed conversions, %$ of scalars and containers) are executed; the thorough tier adds an AddressSanitizer build.",
+         "sampled input domain (exploration); libc is trusted for single conversions; grammar as stated in the property (no %n, no * widths, %c never 0)", "5/C14"),
+ "C15": (EX, "TLA+ Codec (String escape encoder and the transcribed String_Look decoder; Dec(Enc(s)) = s and exact consumption for all strings <= 3 over the class alphabet, as-found reader refuted) checked by TLC; show/look and print/scan round trips executed on both sinks; validated by TLC (FmtTrace Mode round)",
+         "TLC proves the String escape layer round-trips on a complete class alphabet and frames correctly; on the real library boundary and random int64 values, finite doubles across the exponent range and strings over bytes 1..255 are written with show_to (or print_to with %li %lld %d %i %hd %hhd %u %lu %lf %le %lg %$) at several start positions on String and File sinks and read back with look_from / scan_from, alone and in sequences with separators; TLC checks that the value read back is the value the written text denotes (the value itself for Int and String) and that exactly the written characters were consumed.",
+         "sampled value domain (exploration); the value a numeric text denotes is computed with strtoll/strtod", "5/C15"),
 }
 
 NOT_YET = {
